@@ -73,6 +73,45 @@ CLAIMED = {
    note="Trusted: TLC, allocator instrumentation. Shard-proportional is decided with shards >= 4 KiB: anything at least one shard long.",
    ref="DESIGN.md section 5, C17"),
 }
+
+CODE_NOTE = "Trusted: TLC, CommunityModules overrides, harness logging; digests are 64-bit FNV-1a where the specification does not compute on the bytes."
+CLAIMED.update({
+ "C01": dict(
+   technique="TLA+ trace validation of recorded decode rounds (Trace_Code.tla) + bounded design models",
+   text="Decode rounds of the real code on sufficient shard sets are recorded (every (rate,k,r) with k+r<=7, thorough 10, with maximum-loss, scattered, "
+        "burst and surplus patterns; random mid-size configurations; all 31 envelope corners and chunk edges at maximum loss; all engines, kinds and the "
+        "one-shot function) and validated by TLC: decode must succeed and return exactly the missing originals (index set computed by the specification), "
+        "byte for byte, in ascending order, with the configured length. The given recovery shards come from a reference encoder pinned to the closed form by C02.",
+   note=CODE_NOTE + " Subsets are exhaustive only in the bounded design models; at 16 bits they are seeded samples.", ref="DESIGN.md section 5, C01"),
+ "C04": dict(
+   technique="TLA+ trace validation: every symbol slot of rounds at every even size evaluated through Layout.tla and the closed form",
+   text="For every even shard size 2..132 (thorough 2..258, 510, 1022, 4098) an encode round is recorded and TLC evaluates EVERY 16-bit slot of every "
+        "recovery shard with the closed-form code through the documented byte placement (Layout.tla) - which is exactly 'the same symbols as coding every "
+        "slot on its own' - checks exact output lengths, and validates a maximum-loss decode at the same size. Poisoned working memory exposes kernels that "
+        "read the unused part of the final block.",
+   note=CODE_NOTE, ref="DESIGN.md section 5, C04"),
+ "C08": dict(
+   technique="TLC proves the envelope theorems on Bits=2..8; whole rows of every supports() predicate validated as run-lengths by Trace_Envelope",
+   text="Envelope.tla states the README table literally; TLC checks over the whole square for Bits=2..8 that it equals the code's formulation, that the "
+        "dedicated rates are its two halves, and that rows are intervals with known breakpoints. At 16 bits every supports() predicate (12 entry points) is "
+        "evaluated over whole rows (every 16th original_count plus all corner neighbourhoods; thorough: all 4.3e9 pairs per predicate) and each row's "
+        "run-lengths must equal the specification's. validate/new agree with supports at all corners +-1 and usize extremes; reset/rehouse edges of the "
+        "Codec graph are replayed; corner configurations really encode and decode.",
+   note="Trusted: TLC, harness. Constructors are only exercised with shard sizes <= 64 (allocation failures are outside the property).", ref="DESIGN.md section 5, C08"),
+ "C09": dict(
+   technique="rule rows validated by Trace_Envelope; rate in snapshots on New/Reset/Rehouse graph edges; default-vs-dedicated rounds validated by Trace_Code",
+   text="The private selection rule is exposed by hook H5 and validated over whole rows against Envelope!UseHigh; the inner rate of default-rate codecs "
+        "is compared with the model after every New/Reset/Rehouse edge on every engine; default-rate codecs, ReedSolomonEncoder and the one-shot function "
+        "are recorded next to the dedicated codec of the rule's rate on the same data (all (k,r)<=12x12, thorough 24x24, power-of-two boundaries) and TLC "
+        "requires identical bytes, the rule's rate, and the closed form; dedicated-encoded shards are decoded by the default family.",
+   note=CODE_NOTE, ref="DESIGN.md section 5, C09"),
+ "C13": dict(
+   technique="TLA+ trace validation of linear relations between recorded encode rounds, with GF!Mul evaluated by TLC",
+   text="Triples (A, B, A xor B), pairs (A, c*A) and zero data are encoded by the real code; Trace_Code.tla verifies the input relation itself and the "
+        "output relation (bytewise xor; symbolwise product with its own GF(2^16) arithmetic) and checks every round against the closed form. All rates, "
+        "engines, sizes incl. non-multiples of 64, and envelope-boundary configurations.",
+   note=CODE_NOTE, ref="DESIGN.md section 5, C13"),
+})
 PENDING = {}
 for i in range(1, 18):
     pid = "C%02d" % i
